@@ -15,7 +15,7 @@ def all_datagrams(maxlen, alphabet):
 
 class C09(C01):
     ident = "C09"
-    extra_bins = ("c09port",)
+    extra_bins = ("c09port", "c09http")
     technique = "Coq proof: classification total, monitor never reaches the internal-error path, TID non-interference; extracted-model correspondence"
     rule = ("transfer part: every datagram of length <= 4 (quick) / 5 (thorough) over {0,1,2,3,4,5,6,8,9,0x61,0xff} injected from "
             "the peer and from a foreign address at three points of a transfer (OACK outstanding, first block outstanding, last "
@@ -65,6 +65,9 @@ class C09(C01):
         # request-port half: real TftpServer._process_request vs the extracted port model
         import c09_port
         c09_port.port_checks(tier, rng, report)
+        # HTTP half: real HttpServer + real file handlers vs the extracted classification model
+        import c09_http
+        c09_http.http_checks(tier, rng, report)
 
 
 if __name__ == "__main__":
